@@ -20,7 +20,17 @@ type c02step struct {
 	o     mop
 	dump  []int64
 	size  int
+	empty bool
+	nkeys int
 	panic bool
+}
+
+// observe: dump + Size() + Empty() + len(Keys()) of the real tree
+func (st *c02step) observe(t DTree) {
+	st.dump = t.Dump()
+	st.size = t.Size()
+	st.empty = t.Empty()
+	st.nkeys = len(t.Keys())
 }
 
 func c02Term(kindCoq string, path []mop, branch bool, steps []c02step) string {
@@ -38,7 +48,7 @@ func c02Term(kindCoq string, path []mop, branch bool, steps []c02step) string {
 		if s.panic {
 			d = "[-1]"
 		}
-		ss[i] = fmt.Sprintf("(%s, %s, %s, %s)", coqList(pre), s.o.coq(), d, zi(s.size))
+		ss[i] = fmt.Sprintf("(%s, %s, %s, %s, %s, %s)", coqList(pre), s.o.coq(), d, zi(s.size), vhlib.Bool(s.empty), zi(s.nkeys))
 	}
 	return fmt.Sprintf("{| c_kind := %s; c_path := %s; c_branch := %s; c_steps := %s |}",
 		kindCoq, coqList(ps), vhlib.Bool(branch), coqList(ss))
@@ -68,7 +78,7 @@ func shapeBFS(w *vhlib.Writer, k treeKind, U int, maxStates int) {
 	seen := map[string]bool{}
 	{
 		t := k.mk()
-		seen[dumpKey(t.Dump(), t.Size())] = true
+		seen[dumpKey(t.Dump())] = true
 	}
 	queue := [][]mop{nil}
 	trans := 0
@@ -87,8 +97,7 @@ func shapeBFS(w *vhlib.Writer, k treeKind, U int, maxStates int) {
 				st := c02step{o: o}
 				p, _ := vhlib.Recover(func() {
 					applyOp(t, o)
-					st.dump = t.Dump()
-					st.size = t.Size()
+					st.observe(t)
 				})
 				st.panic = p
 				steps = append(steps, st)
@@ -97,7 +106,7 @@ func shapeBFS(w *vhlib.Writer, k treeKind, U int, maxStates int) {
 				if p {
 					continue
 				}
-				key := dumpKey(st.dump, st.size)
+				key := dumpKey(st.dump)
 				if !seen[key] && len(seen) < maxStates {
 					seen[key] = true
 					queue = append(queue, append(append([]mop{}, path...), o))
@@ -109,6 +118,9 @@ func shapeBFS(w *vhlib.Writer, k treeKind, U int, maxStates int) {
 		spread.tick()
 	}
 	w.Notes["shapes "+k.label] = fmt.Sprintf("universe 1..%d: %d reachable shapes, %d transitions", U, len(seen), trans)
+	if len(seen) >= maxStates {
+		w.Notes["shapes "+k.label+" TRUNCATED"] = fmt.Sprintf("state cap %d reached: the implementation reaches more states than a correct tree has shapes", maxStates)
+	}
 }
 
 // profiled random sequence; dump after every operation (dense) or after every 2^j-th operation (sparse)
@@ -138,8 +150,7 @@ func shapeProfile(w *vhlib.Writer, k treeKind, prof string, rng *vhlib.Rng, n in
 		pre = nil
 		p, _ := vhlib.Recover(func() {
 			applyOp(t, o)
-			st.dump = t.Dump()
-			st.size = t.Size()
+			st.observe(t)
 		})
 		st.panic = p
 		steps = append(steps, st)
@@ -187,9 +198,13 @@ func runC02(o vhlib.Opts) {
 			}
 		}
 	}
+	capStates := 600 // a correct tree has at most 295 shapes over the quick universes
+	if thorough {
+		capStates = 12000
+	}
 	for _, k := range kinds {
 		if uu, ok := u[k.label]; ok {
-			shapeBFS(w, k, uu, 2000000)
+			shapeBFS(w, k, uu, capStates)
 		}
 	}
 	reps, n := 1, 40
